@@ -182,9 +182,15 @@ pub fn run_shape(c: &ShapeCase, st: &mut Stats) -> CaseResult {
 		ensure!(result_bits(&r) == result_bits(&rd), &format!("C11:{name}:dyn-next"), "{name} step {t}: dyn instance returned {:?}, static instance {:?}", rd, r);
 		ensure!(result_bits(&r) == result_bits(&d_over[t]), &format!("C11:{name}:dyn-over"), "{name} step {t}: dyn over returned {:?}, static next {:?}", d_over[t], r);
 	}
+	// a zero-length stream: static and dyn `over` both return Ok(empty) (the static API says so explicitly)
+	let none: Vec<Candle> = Vec::new();
+	let e_static = engine::catch(|| cfg.over(&none)).map_err(|p| Failure::new(format!("C11:{name}:over-empty-{}", p.sig()), format!("{name}: static over() on no candles panicked at {}: {}", p.loc, p.msg)))?;
+	let e_dyn = engine::catch(|| dy.over(&none)).map_err(|p| Failure::new(format!("C11:{name}:dyn-over-empty-{}", p.sig()), format!("{name}: dyn over() on no candles panicked at {}: {}", p.loc, p.msg)))?;
+	ensure!(matches!(&e_static, Ok(v) if v.is_empty()) && matches!(&e_dyn, Ok(v) if v.is_empty()), &format!("C11:{name}:over-empty"), "{name}: over() on no candles: static {:?}, dyn {:?}", e_static.as_ref().map(|v| v.len()), e_dyn.as_ref().map(|v| v.len()));
 	// dyn instance `over` on a twin
 	let mut twin = dy.init(&cs[0]).map_err(|e| Failure::new(format!("C11:{name}:dyn-init"), format!("{e:?}")))?;
 	let half = cs.len() / 2;
+	ensure!(twin.over(&none).is_empty(), &format!("C11:{name}:dyn-instance-over-empty"), "{name}: dyn instance over() on no candles returned results");
 	let a = twin.over(&cs[..half].to_vec());
 	let b = twin.over(&cs[half..].to_vec());
 	ensure!(a.len() + b.len() == cs.len() && a.iter().chain(b.iter()).zip(d_over.iter()).all(|(x, y)| result_bits(x) == result_bits(y)), &format!("C11:{name}:dyn-instance-over"), "{name}: dyn instance over() in two chunks differs from the stream");
